@@ -365,6 +365,85 @@ def run_enum(task):
     return res
 
 
+# ---------------------------------------------------------------------------------------------
+# writers in separate OS processes forked from one parent that already imported the library (a pre-fork worker pool): what every writer
+# acknowledged must be what a reader handle in the parent then reads through every API; snapshot ids of distinct commits are distinct
+def forked_case(case):
+    import os
+
+    out = {"violations": [], "labels": ["forked-writers"], "nontrivial": False}
+    with scratch_dir("c02f") as d:
+        world = c04.make_world(d, "local")
+        base = build_base(world, case["nprior"])
+        cur = current_snapshot(base)
+        expect = [r for p in (cur["files"] if cur else []) for r in cur["rows_by_file"][p]]
+        reader = world.open()
+        if case["parent_first"]:
+            # the parent itself commits before forking (whatever per-process state the library keeps has been used once)
+            reader.append_records([{"k": 900, "s": "parent"}])
+            expect = expect + [{"k": 900, "s": "parent"}]
+        for wi in range(case["nw"]):
+            rows = [[{"k": 1000 + 10 * wi + j, "s": f"p{wi}"}] for j in range(case["nops"])]
+            pid = os.fork()
+            if pid == 0:
+                code = 4
+                try:
+                    t = world.open()
+                    with t.new_transaction() as tx:
+                        for rr in rows:
+                            tx.append_data(rr)
+                        ok = tx.commit()
+                    code = 0 if ok else 3
+                except BaseException:  # noqa
+                    code = 4
+                finally:
+                    os._exit(code)
+            _pid, status = os.waitpid(pid, 0)
+            rc = os.waitstatus_to_exitcode(status)
+            if rc != 0:
+                out["violations"].append((f"forked-writer-failed/rc{rc}", f"writer process #{wi} (fault-free, sequential) did not commit: exit {rc}"))
+                return out
+            expect = expect + [r for rr in rows for r in rr]
+            out["nontrivial"] = out["nontrivial"] or wi >= 1
+            for hname, h in (("long-lived", reader), ("fresh", world.open())):
+                for api in READ_APIS:
+                    spec = read_spec(api=api)
+                    try:
+                        r = do_read(h, spec)
+                    except Exception as e:  # noqa
+                        out["violations"].append((f"forked/read-raised/{type(e).__name__}", f"{api} on the {hname} parent handle after writer process #{wi} committed raised {type(e).__name__}: {str(e)[:150]}"))
+                        continue
+                    ok = (r[1] == len(expect)) if r[0] == "count" else rows_multiset(r[1]) == rows_multiset(expect)
+                    if not ok:
+                        got = r[1] if r[0] == "count" else len(r[1])
+                        out["violations"].append((f"forked/acknowledged-commit-invisible/{api}", f"{api} on the {hname} parent handle after writer process #{wi} acknowledged its {case['nops']}-append transaction "
+                                                                                                 f"returned {got} rows/count, expected {len(expect)} (all acknowledged commits)"))
+            try:
+                v = read_view(world.fs())
+                ids = [sn["id"] for sn in v["snapshots"]]
+                if len(ids) != len(set(ids)):
+                    out["violations"].append(("forked/duplicate-snapshot-id", f"after writer process #{wi}: snapshot ids {ids} are not distinct"))
+            except ReadError as e:
+                out["violations"].append(("forked/unreadable", str(e)[:200]))
+            if out["violations"]:
+                return out
+    return out
+
+
+def run_forked(task):
+    import itertools
+
+    res = Result()
+    for nw, nops, nprior, pf in itertools.product((2, 3), (1, 2, 3), (0, 1, 2), (False, True)):
+        case = {"kind": "forked", "nw": nw, "nops": nops, "nprior": nprior, "parent_first": pf}
+        o = forked_case(case)
+        res.case(key=chash(case), nontrivial=o["nontrivial"], labels=o["labels"], sample=case if (nw, nops, nprior) == (2, 2, 1) else None)
+        for b, w in o["violations"]:
+            res.violation(b, w, case)
+    return res
+
+
+
 @st.composite
 def pct_case(draw):
     world = draw(st.sampled_from(["local", "local", "s3cas"]))
@@ -399,6 +478,7 @@ def plan(tier, seed):
     for sc in RICH[: 1 if tier == "quick" else 2]:
         for s in range(6):
             tasks.append({"kind": "enum", "sc": sc, "shard": s, "nshard": 6, "rich": True})
+    tasks.append({"kind": "forked"})
     n = 120 if tier == "quick" else 3000
     for s in range(4 if tier == "quick" else 16):
         tasks.append({"kind": "pct", "n": n, "seed": seed * 1000 + s, "tier": tier})
@@ -408,6 +488,8 @@ def plan(tier, seed):
 def run_task(task):
     if task["kind"] == "enum":
         return run_enum(task)
+    if task["kind"] == "forked":
+        return run_forked(task)
     res = Result()
     campaign(pct_case(), run_case, task["n"], task["seed"], res, PROP, shrink=task["tier"] == "thorough")
     return res
@@ -420,6 +502,9 @@ def _fix(spec):
 
 
 def replay(case):
+    if case.get("kind") == "forked":
+        o = forked_case(case)
+        return [{"bucket": b, "what": w} for b, w in o["violations"]]
     for reads in case["sc"]["readers"]:
         for s in reads:
             _fix(s)
